@@ -18,45 +18,45 @@ pub mod test_utils {
 
 #[cfg(kani)]
 pub mod common;
-#[cfg(kani)]
+#[cfg(all(kani, feature = "c24"))]
 mod c24;
 #[cfg(kani)]
 pub mod hx;
-#[cfg(kani)]
+#[cfg(all(kani, feature = "c29"))]
 mod c29;
 #[cfg(kani)]
 pub mod models;
-#[cfg(kani)]
+#[cfg(all(kani, feature = "c13"))]
 mod c13;
-#[cfg(kani)]
+#[cfg(all(kani, feature = "c27"))]
 mod c27;
-#[cfg(kani)]
+#[cfg(all(kani, feature = "c36"))]
 mod c36;
-#[cfg(kani)]
+#[cfg(all(kani, feature = "c35"))]
 mod c35;
-#[cfg(kani)]
+#[cfg(all(kani, feature = "c25"))]
 mod c25;
-#[cfg(kani)]
+#[cfg(all(kani, feature = "c03"))]
 mod c03;
-#[cfg(kani)]
+#[cfg(all(kani, feature = "c28"))]
 mod c28;
-#[cfg(kani)]
+#[cfg(all(kani, feature = "c30"))]
 mod c30;
-#[cfg(kani)]
+#[cfg(all(kani, feature = "c16"))]
 mod c16;
-#[cfg(kani)]
+#[cfg(all(kani, feature = "c26"))]
 mod c26;
-#[cfg(kani)]
+#[cfg(all(kani, feature = "c12"))]
 mod c12;
-#[cfg(kani)]
+#[cfg(all(kani, feature = "c02"))]
 mod c02;
-#[cfg(kani)]
+#[cfg(all(kani, feature = "c20"))]
 mod c20;
-#[cfg(kani)]
+#[cfg(all(kani, feature = "c06"))]
 mod c06;
-#[cfg(kani)]
+#[cfg(all(kani, feature = "c01"))]
 mod c01;
-#[cfg(kani)]
+#[cfg(all(kani, feature = "c34"))]
 mod c34;
-#[cfg(kani)]
+#[cfg(all(kani, feature = "c39"))]
 mod c39;
